@@ -334,6 +334,21 @@ let run_states (line : string) : string =
        | Err (e, _) -> Printf.sprintf "ERR %s" (err_string e))
   | _ -> failwith "bad iter case"
 
+(* case: n op*n.  Output in the harness' `batch` format *)
+let run_batch (line : string) : string =
+  let t = { v = Array.of_list (split_ws line); i = 0 } in
+  let n = int_of_string (next t) in
+  let ops = List.init n (fun _ -> parse_op [||] (next t)) in
+  let bs = batch_ops ops in
+  let part (b : batch) =
+    Printf.sprintf "%s;%s;%d;%s"
+      (String.concat "," (List.map s_of_z b.b_groups))
+      (String.concat "," (List.map (fun c -> string_of_int (int_of_nat c)) b.b_counts))
+      (int_of_nat b.b_num_groups)
+      (String.concat "," (List.map op_name b.b_ops)) in
+  Printf.sprintf "OK nb=%d | %s # %s" (List.length bs) (String.concat " | " (List.map part bs))
+    (String.concat "," (List.map s_of_z (block_hash (BSpan ops))))
+
 let () =
   let family = Sys.argv.(1) in
   let ic = open_in Sys.argv.(2) in
@@ -350,6 +365,7 @@ let () =
               | "lower" -> run_lower line
               | "stream" -> run_stream line
               | "iter" -> run_states line
+              | "batch" -> run_batch line
               | "astexec" -> run_astexec line
               | _ -> failwith "unknown family")
            with Failure m -> "DRIVER-FAIL " ^ m
